@@ -135,6 +135,9 @@ structure IInvoke where
   steps : List IStep
   /-- at the return of the Invoke -/
   st : EState
+  /-- what the interrupt path collected after the interrupt point had been hit (the
+      executions that were outstanding at that moment, under `waitAll`) -/
+  drained : List Key := []
 
 /-- started and not collected -/
 def iUncollected (st : EState) : List Key := st.started.filter fun k => !st.done.contains k
@@ -154,36 +157,36 @@ def iInterrupt (c : ICfg) (L : LoopFacts) (st : EState) (infl next bef aft : Lis
   let st2 := r.1
   let aft2 := aft ++ dl.filter c.after.contains
   let newNext := (eReady c.g st2).filter fun k => !next.contains k
-  if eEndReady c.g st2 then ⟨.ok, r.2, st2⟩
-  else ⟨.interrupt (bef ++ newNext.filter c.before.contains) aft2 (next ++ newNext), r.2, st2⟩
+  if eEndReady c.g st2 then ⟨.ok, r.2, st2, dl⟩
+  else ⟨.interrupt (bef ++ newNext.filter c.before.contains) aft2 (next ++ newNext), r.2, st2, dl⟩
 
 /-- eager run loop: one completion per iteration -/
 def iEager (c : ICfg) (L : LoopFacts) : Nat → EState → List Key → List IStep → IInvoke
-  | 0, st, _, acc => ⟨.stuck, acc, st⟩
+  | 0, st, _, acc => ⟨.stuck, acc, st, []⟩
   | n + 1, st, infl, acc =>
     match (prio c.order infl).head? with
-    | none => ⟨.stuck, acc, st⟩
+    | none => ⟨.stuck, acc, st, []⟩
     | some k =>
       let st1 := iCollect c.g st k
       let infl1 := infl.erase k
       let acc1 := acc ++ [⟨k, infl⟩]
       let aft := if c.after.contains k then [k] else []
       let next := eReady c.g st1
-      if eEndReady c.g st1 then ⟨.ok, acc1, st1⟩ else
+      if eEndReady c.g st1 then ⟨.ok, acc1, st1, []⟩ else
       let bef := next.filter c.before.contains
       if bef.isEmpty && aft.isEmpty then iEager c L n (iStart st1 next) (infl1 ++ next) acc1
       else iInterrupt c L st1 infl1 next bef aft acc1
 
 /-- batch run loop: one superstep per iteration (nothing is outstanding after `wait`) -/
 def iBatch (c : ICfg) (L : LoopFacts) : Nat → EState → List Key → List IStep → IInvoke
-  | 0, st, _, acc => ⟨.stuck, acc, st⟩
+  | 0, st, _, acc => ⟨.stuck, acc, st, []⟩
   | n + 1, st, infl, acc =>
-    if infl.isEmpty then ⟨.stuck, acc, st⟩ else
+    if infl.isEmpty then ⟨.stuck, acc, st, []⟩ else
     let r := iDrain c.g st (prio c.order infl) infl acc
     let st1 := r.1
     let aft := (prio c.order infl).filter c.after.contains
     let next := eReady c.g st1
-    if eEndReady c.g st1 then ⟨.ok, r.2, st1⟩ else
+    if eEndReady c.g st1 then ⟨.ok, r.2, st1, []⟩ else
     let bef := next.filter c.before.contains
     if bef.isEmpty && aft.isEmpty then iBatch c L n (iStart st1 next) next r.2
     else iInterrupt c L st1 [] next bef aft r.2
@@ -200,7 +203,7 @@ def iFirst (c : ICfg) (L : LoopFacts) : IInvoke :=
   let st0 := iInit c.g
   let next := eReady c.g st0
   let bef := next.filter c.before.contains
-  if !bef.isEmpty then ⟨.interrupt bef [] next, [], st0⟩
+  if !bef.isEmpty then ⟨.interrupt bef [] next, [], st0, []⟩
   else iLoop c L (iStart st0 next) next
 
 /-- a resumed Invoke: the tasks of the checkpoint are submitted at once -/
